@@ -425,14 +425,12 @@ class Mineral:
             )
             deformation_gradient_diff = velocity_gradient @ deformation_gradient
             if strain_rate_max == 0:
-                # No deformation (e.g. zero velocity gradient), no texture evolution.
-                # Avoids NaNs from the nondimensionalisation below.
-                return np.hstack(
-                    (
-                        deformation_gradient_diff.flatten(),
-                        np.zeros(self.n_grains * 10),
-                    )
-                )
+                # No deformation (zero or purely rotational velocity gradient), there is
+                # no strain rate scale to nondimensionalise with (avoids NaNs below).
+                # Without strain there is no slip: the solver returns the rotation rate
+                # due to the rigid-body rotation of the flow (if any) and no change in
+                # the volume fractions.
+                strain_rate_max = 1.0
             deformation_gradient_spin = _tensors.polar_decompose(
                 deformation_gradient_diff
             )[1]
